@@ -18,7 +18,7 @@ from fsim import models
 from fsim.core import Result, fx, xf
 from fsim.reference import rel
 
-CONFIG_FIELDS = {"common_subexpression_elimination": [True, False], "extra_validation": [False], "max_dt_sec": [0.05, 0.1, 0.5, 1.0], "innovation_filtering": [None, 1.0, 3.0, 5.0, 7.5]}
+CONFIG_FIELDS = {"common_subexpression_elimination": [True, False], "extra_validation": [False], "max_dt_sec": [0.05, 0.1, 0.5, 1.0], "innovation_filtering": [None, 1.0, 3.0, 5.0, 7.5, 1, 4, 0.0]}
 
 
 # --------------------------------------------------------------------------- generation
@@ -33,8 +33,10 @@ def generate(rng, prop, tier):
         d = models.draw(rng, max_states=3, max_controls=3, max_cal=1, max_sensors=3, min_sensors=1, symbol_keys=True, linear=rng.random() < 0.6)
     while not d["sensors"]:
         d = models.draw(rng, max_states=3, max_controls=3, max_cal=1, max_sensors=3, min_sensors=1, symbol_keys=False, linear=True)
+    if rng.random() < 0.2:
+        d = models.add_simplifiable(d, rng)
     width = len(d["control"]) + sum(len(sd["readings"]) for sd in d["sensors"].values())
-    cfg = {"cse": rng.random() < 0.15, "innovation_filtering": rng.choice([None, None, 1.0, 5.0]), "max_dt_sec": fx(rng.choice([0.1, 0.05, 0.5]))}
+    cfg = {"cse": rng.random() < 0.3, "innovation_filtering": rng.choice([None, None, 1.0, 5.0]), "max_dt_sec": fx(rng.choice([0.1, 0.05, 0.5]))}
     mats = {f"m{i}": _matrix(rng, rng.randint(1, 8) if i else rng.randint(3, 8), width, rng.choice([0.5, 1.0, 3.0])) for i in range(rng.randint(2, 4))}
     names = sorted(mats)
     for nm in names:
